@@ -1678,8 +1678,11 @@ int QSexact_solver (mpq_QSdata * p_mpq,
 	/* if we reach this point, then we have to keep going, we use the previous
 	 * basis ONLY if the previous precision think that it has the optimal
 	 * solution, otherwise we start from scratch. */
-	precision = 128;
 	MPF_PRECISION:
+	/* the jumps to this label (double stage failed, or reported INFEASIBLE without a
+	 * certificate array) used to skip the assignment and started from whatever
+	 * precision the previous call had ended with */
+	precision = 128;
 	dbl_QSfree_prob (p_dbl);
 	p_dbl = 0;
 	/* try with multiple precision floating points */
